@@ -1,8 +1,8 @@
 #!/bin/bash
-# usage: confirm_mutant.sh <Cxx> <mN> [<dest mK>]  -- confirms an agent-produced mutant (/tmp/mut/<Cxx>.out/<mN>) in a
+# usage: confirm_mutant.sh <Cxx> <mN> [<dest mK>]  -- confirms an agent-produced mutant ($MUT_ROOT/<Cxx>.out/<mN>, MUT_ROOT defaults to /tmp/mut) in a
 # scratch worktree of /repo HEAD and files it under /verif/seeded/<Cxx>-<mK>/ (patch.diff, demo files, NOTES.md, meta.json)
 set -u
-prop=$1; m=$2; dest=${3:-$2}; src=/tmp/mut/$prop.out/$m
+prop=$1; m=$2; dest=${3:-$2}; src=${MUT_ROOT:-/tmp/mut}/$prop.out/$m
 wt=/tmp/mw.$prop.$m
 [ -f $src/patch.diff ] || { echo "no patch"; exit 9; }
 git -C /repo worktree remove --force $wt 2>/dev/null
